@@ -8,6 +8,7 @@ package main
 //     the verif-tagged EndBlockHook; then height and time advance.
 
 import (
+	"reflect"
 	abci "github.com/tendermint/tendermint/abci/types"
 	"context"
 	"crypto/sha256"
@@ -75,11 +76,33 @@ func sdkParams(p MParams) types.Params {
 	)
 }
 
-// SetParams: governance replaces the module parameters (x/params), between transactions
-func (c *Chain) SetParams(p MParams) {
+// SetParams: governance replaces the module parameters, between transactions - the way a parameter-change
+// proposal does it: every parameter goes through the module's parameter subspace (x/params Subspace.Update,
+// amino JSON in, the module's own validator for that key applied), and a proposal of which one change is
+// refused changes nothing
+func (c *Chain) SetParams(p MParams) (out Outcome) {
+	defer func() {
+		if r := recover(); r != nil {
+			out = Outcome{OK: false, Panic: true, Err: fmt.Sprint(r)}
+		}
+	}()
+	sp := sdkParams(p)
+	ss := c.App.GetSubspace(types.ModuleName)
+	ctx, write := c.Ctx.CacheContext()
+	amino := c.App.LegacyAmino()
+	for _, pair := range sp.ParamSetPairs() {
+		bz, err := amino.MarshalJSON(reflect.Indirect(reflect.ValueOf(pair.Value)).Interface())
+		if err != nil {
+			return Outcome{OK: false, Err: err.Error()}
+		}
+		if err := ss.Update(ctx, pair.Key, bz); err != nil {
+			return Outcome{OK: false, Err: err.Error()}
+		}
+	}
+	write()
 	p.Lax = c.Params.Lax || p.MinDeposit > c.Params.MinDeposit || p.Multiple > c.Params.Multiple
-	c.K.SetParams(c.Ctx, sdkParams(p))
 	c.Params = p
+	return Outcome{OK: true}
 }
 
 // storedParams reads the parameters in force back from the store
